@@ -30,7 +30,10 @@ def private_array_line(rng):
         k = rng.choice([i for i, l in enumerate(out) if l.startswith("#S ")])
         out[k] = out[k].replace("#UCELL", "#XCELL")                  # malformed (no cell): must fail in the same way in every thread
     out.append("#EOF\n")
-    return calls.line("@private_array", "iss", (rng.randint(0, 6), "".join(out), rng.choice(names + ["AA_private_entry", "absent"])))
+    text = "".join(out)
+    if rng.random() < 0.25:
+        text = text.replace("\n", "\r\n")          # a file written on another platform
+    return calls.line("@private_array", "iss", (rng.randint(0, 6), text, rng.choice(names + ["AA_private_entry", "absent"])))
 
 
 def big_private_array_line(rng, nbytes):
@@ -82,7 +85,7 @@ def run_mix(st, exe, lines, T, sdir, tag, rng, mi, comma=False, lockstep=False):
     if comma and COMMA:
         TSAN_ENV.update(XRLCALL_LOCALE=COMMA["name"], LOCPATH=COMMA["LOCPATH"])      # the whole mix under a decimal-comma locale
         st.cls("mixes_under_comma_locale")
-    serial, rc0, err0 = calls.run(exe, "simple", lines, sdir, tag + "_s", env=TSAN_ENV)
+    serial, rc0, err0 = calls.run(exe, "simplens", lines, sdir, tag + "_s", env=TSAN_ENV)
     if rc0 != 0 or len(serial) != len(lines):
         st.violation("serial-run-failed", dict(mix=mi), "serial reference", err0[-1200:])
         return
@@ -216,7 +219,7 @@ def run(ctx):
                 "list, lookup, free), with blocks of identical queries issued by all threads at once; "
                 "plus file mixes (threads load private collections of 20 kB..700 kB at the same time while one thread attempts loads into the built-in collection that are parsed and refused); "
                 "plus focus mixes in which 4 threads execute the same argument sweep of every function in lockstep; ThreadSanitizer build (library and harness), barrier start, seeded sched_yield injection in the harness; compared line by line with a "
-                "serial run of the same lists; a third of the mixes run under a generated decimal-comma locale; setlocale observed through -Wl,--wrap. non-trivial = mix run in which >= 2 threads execute "
+                "serial run of the same lists (every fifth call without an error slot, in both); a third of the mixes run under a generated decimal-comma locale; setlocale observed through -Wl,--wrap. non-trivial = mix run in which >= 2 threads execute "
                 "allocating calls, distinct by (call lists, yield pattern)" % (len(items), nmix, per_thread // 2, per_thread))
     ctx.assumptions = ["races inside uninstrumented libc other than setlocale are invisible to ThreadSanitizer",
                        "happens-before race detection does not need the race to manifest, which is what makes generated mixes meaningful here"]
